@@ -259,4 +259,28 @@ def attested (v : Variant) (r : Rev) : Attested :=
     entries := (sortEntries r.entries).map (normEntry v)
     props := (sortProps r.props).map fun nv => (nv.1, splitlines nv.2) }
 
+/-! ### `as_short_text()` -/
+
+/-- `as_short_text()`: `short_header + b"revision-id: %s\nsha1: %s\n" % (revision_id, as_sha1())`.
+`sha` stands for `sha_strings` of the encoded lines (UTF-8 encoding, SHA-1,
+hex digest); the exceptions are those of `__init__` / `as_text_lines()`. -/
+def shortText (sha : Str → Str) (v : Variant) (r : Rev) : Except Err Str :=
+  match text v r with
+  | .error e => .error e
+  | .ok t => .ok (shortHeader v ++ ("revision-id: ".toList ++ (r.revisionId ++ '\n' ::
+      ("sha1: ".toList ++ (sha t ++ ['\n'])))))
+
+/-! ### canonical messages / property values -/
+
+/-- `"\n".join(lines)` -/
+def joinNl : List Str → Str
+  | [] => []
+  | [a] => a
+  | a :: b :: r => a ++ '\n' :: joinNl (b :: r)
+
+/-- a message / property value on which `splitlines` loses nothing: the only
+line boundary it contains is `\n` and it does not end with one -/
+def msgCanon (s : Str) : Bool :=
+  s.all (fun c => !isBreak c || c == '\n') && s.getLast? != some '\n'
+
 end BreezyVerif.C41
